@@ -161,10 +161,11 @@ def impactAmountWithCap (o : Ops α) (tokenPrice impactUsd impactPool : α) : Ex
 def usdToGm (o : Ops α) (usd poolValue supply : α) : Except Err α := fdiv o (supply * usd) poolValue
 
 /-- `calc_token_amount`, positive-impact part: GM minted from the impact pool (`mintAmount = 0; mintAmount += …`), and
-    whether the cap applied; `(0, false)` when the impact is not positive -/
-def positiveImpactMint (o : Ops α) (ps : Pool α) (priceOut impact : α) : Except Err (α × Bool) :=
+    whether the cap applied; `(0, false)` when the impact is not positive.  `pool` is what is left of the impact pool for
+    this token of the deposit. -/
+def positiveImpactMint (o : Ops α) (ps : Pool α) (priceOut impact pool : α) : Except Err (α × Bool) :=
   if impact > 0 then do
-    let (posAmt, capped) ← impactAmountWithCap o priceOut impact ps.impactPool
+    let (posAmt, capped) ← impactAmountWithCap o priceOut impact pool
     let m ← usdToGm o (posAmt * priceOut) ps.poolValue ps.supply
     pure ((0 : α) + m, capped)
   else pure ((0 : α), false)
@@ -178,32 +179,45 @@ def afterNegativeImpact (o : Ops α) (ps : Pool α) (priceIn after impact : α) 
     if after' < 0 then throw .runtime else pure after'
   else pure after
 
-/-- `ExecuteDepositUtils.calc_token_amount`: minted GM, fee amount, whether the positive impact was capped -/
-def calcTokenAmount (o : Ops α) (cfg : Config α) (ps : Pool α) (priceIn priceOut amount impact : α) :
+/-- `ExecuteDepositUtils.calc_token_amount(…, impactPoolAmount = pool)`: minted GM, fee amount, whether the positive impact
+    was capped -/
+def calcTokenAmount (o : Ops α) (cfg : Config α) (ps : Pool α) (priceIn priceOut amount impact pool : α) :
     Except Err (α × α × Bool) := do
   let feeFactor := if impact > 0 then cfg.depositFeePos else cfg.depositFeeNeg
   let fee := feeFactor * amount
-  let (mint, capped) ← positiveImpactMint o ps priceOut impact
+  let (mint, capped) ← positiveImpactMint o ps priceOut impact pool
   let after ← afterNegativeImpact o ps priceIn (amount - fee) impact
   let m2 ← usdToGm o (after * priceIn) ps.poolValue ps.supply
   pure (mint + m2, fee, capped)
 
-/-- one side of `get_mint_amount` (`if amount > 0:`): `none` when nothing of this token is deposited -/
-def sidePart (o : Ops α) (cfg : Config α) (ps : Pool α) (priceIn priceOut amount usd totalUsd impact : α) :
-    Except Err (Option (α × α × Bool)) :=
+/-- what is left of the impact pool after this token's share of a positive impact has been paid out of it
+    (`impact_pool_left -= paid_amount`, repaired code); unchanged when the share is not positive -/
+def poolLeft (o : Ops α) (priceOut share pool : α) : Except Err α :=
+  if share > 0 then do
+    let (paid, _) ← impactAmountWithCap o priceOut share pool
+    pure (pool - paid)
+  else pure pool
+
+/-- one side of `get_mint_amount` (`if amount > 0:`) given what is left of the impact pool: `none` when nothing of this
+    token is deposited; the second component is what is left of the impact pool afterwards (the code computes it for the
+    long side only; for the short side it is discarded, and it cannot raise once `calcTokenAmount` has succeeded) -/
+def sidePart (o : Ops α) (cfg : Config α) (ps : Pool α) (priceIn priceOut amount usd totalUsd impact pool : α) :
+    Except Err (Option (α × α × Bool) × α) :=
   if amount > 0 then do
     let share ← fdiv o (impact * usd) totalUsd
-    let r ← calcTokenAmount o cfg ps priceIn priceOut amount share
-    pure (some r)
-  else pure none
+    let r ← calcTokenAmount o cfg ps priceIn priceOut amount share pool
+    let left ← poolLeft o priceOut share pool
+    pure (some r, left)
+  else pure (none, pool)
 
-/-- `ExecuteDepositUtils.get_mint_amount`; the string is the branch tag -/
+/-- `ExecuteDepositUtils.get_mint_amount`; the string is the branch tag.  The one impact pool figure of the row serves both
+    tokens of the deposit: the short side is capped by what the long side left. -/
 def mintAmount (o : Ops α) (cfg : Config α) (ps : Pool α) (longAmt shortAmt : α) : Except Err (LPResult α × String) := do
   let longUsd := longAmt * ps.longPrice
   let shortUsd := shortAmt * ps.shortPrice
   let (impact, tag) ← priceImpactUsd o cfg ps longUsd shortUsd
-  let lp ← sidePart o cfg ps ps.longPrice ps.shortPrice longAmt longUsd (longUsd + shortUsd) impact
-  let sp ← sidePart o cfg ps ps.shortPrice ps.longPrice shortAmt shortUsd (longUsd + shortUsd) impact
+  let (lp, left) ← sidePart o cfg ps ps.longPrice ps.shortPrice longAmt longUsd (longUsd + shortUsd) impact ps.impactPool
+  let (sp, _) ← sidePart o cfg ps ps.shortPrice ps.longPrice shortAmt shortUsd (longUsd + shortUsd) impact left
   let (gm1, longFee, feeUsd1, cap1) := match lp with
     | some (m, f, c) => ((0 : α) + m, f, (0 : α) + f * ps.longPrice, c)
     | none => ((0 : α), (0 : α), (0 : α), false)
